@@ -39,15 +39,16 @@ RULE = ("one case = (domain size, print axis, sign, nsampling[, repetition]); al
         "distinct = distinct "
         "(size, direction, nsampling); non-trivial = at least two layers in the print direction")
 EXHAUSTIVE = {"quick": True, "thorough": True}
+K_XI0 = "output/non-finite-at-xi_0=0-with-eps=0"
 ASSUMPTIONS = [
-    "float64 density fields with values in [0,1]; xi_0 in [0.2,0.8], p in [5,40] (int or float), eps in "
+    "float64 density fields with values in [0,1]; xi_0 in {0} u [0.2,0.8], p in [5,40] (int or float), eps in "
     "{0} u [1e-6,1e-2]; parameter draws with Q = p + ln(ns)/ln(xi_0) < 1 are re-drawn (the P-Q smooth maximum of "
     "Langelaar's scheme needs Q > 0; Q >= 1 bounds the conditioning 1/Q of the Q-th root)",
     "element (i,j,k) has number (k*nely+j)*nelx+i (verified by C13)",
     "supporting elements (Langelaar 2016/2017): 2D the element below and its two in-plane neighbours; 3D, 5 points: "
     "the element below and its four edge neighbours, 9 points: also the four diagonal neighbours; positions outside "
     "the domain do not contribute",
-    "`direction` attribute: only axis and sign are judged (off-axis components zero), not its length",
+    "`direction` attribute: only axis and sign are judged (off-axis components zero up to 1e-12 of the axis component: rounding noise of a computed rotation), not its length",
     "admissible direction spellings: strings consisting of one axis letter (either case) and an optional sign before "
     "or after it, optionally padded by blanks (bare letter = positive); vectors (list/tuple/ndarray, int or float, "
     "any positive length) with dim or 3 components",
@@ -110,6 +111,13 @@ def plan(tier, seed):
                 n = [int(rng.integers(2, 11)) for _ in range(3)]
                 ax, ns = int(rng.integers(0, 3)), int(rng.choice([5, 9]))
             cases.append({"n": n, "ax": ax, "sg": int(rng.choice([1, -1])), "ns": ns, "rep": 100 + i, "big": 1})
+    # domains with more than 32767 elements (element numbers beyond the narrow integer types), cheap variant
+    rng2 = np.random.default_rng([int(seed) & 0xFFFFFFFF, 1415])
+    huge = [[200, 170, 0], [33, 33, 32]] + ([] if tier == "quick" else [[256, 160, 0], [40, 30, 30], [1, 33000, 0], [33000, 2, 0]])
+    for i, n in enumerate(huge):
+        dim_ = 2 if n[2] == 0 else 3
+        cases.append({"n": n, "ax": int(rng2.integers(0, dim_)), "sg": int(rng2.choice([1, -1])), "ns": 3 if dim_ == 2 else int(rng2.choice([5, 9])),
+                      "rep": 900 + i, "big": 1})
     return cases
 
 
@@ -140,7 +148,8 @@ class Model:
     def __init__(self, xi0, p, eps, ns):
         tiny = 2.0 ** -1022
         self.p, self.eps, self.ns, self.xi0 = float(p), float(eps), int(ns), float(xi0)
-        self.q = self.p + math.log(self.ns) / math.log(self.xi0)
+        # xi_0 = 0 is the documented end of the range (0 <= xi_0 <= 1): ln(0) = -inf, so Q = P (plain P-norm maximum)
+        self.q = self.p + (math.log(self.ns) / math.log(self.xi0) if self.xi0 > 0 else 0.0)
         self.shift = 100.0 * tiny ** (1.0 / self.p)
         self.back = 0.95 * self.ns ** (1.0 / self.q) * self.shift ** (self.p / self.q)
         self.offs = OFFSETS[:self.ns]
@@ -218,6 +227,13 @@ def spellings(dim, ax, sg, rng):
                 ("vector", f"tuple-{n}", tuple(vec(n, float(sg)))),
                 ("vector", f"float-ndarray-{n}", np.array(vec(n, c * sg), dtype=float)),
                 ("vector", f"int-ndarray-{n}", np.array(vec(n, k * int(sg)), dtype=int))]
+        # an axis direction computed by rotating a unit vector in steps of 90 degrees: [cos(k pi/2), sin(k pi/2)] carries rounding
+        # noise of 1e-16 in the off-axis entries
+        rv = np.array(vec(n, float(sg)), dtype=float)
+        for o in range(n):
+            if o != ax and o < dim:      # (the library asserts an exactly zero z component on 2D domains)
+                rv[o] = float(rng.choice([6.123233995736766e-17, -1.8369701987210297e-16, 1.2246467991473532e-16]))
+        out.append(("vector", f"rotated-unit-vector-{n}", rv))
     return out
 
 
@@ -311,7 +327,12 @@ def check_output(ctx, y, x, n3, ax, sg, mod, info):
     nel = n3[0] * n3[1] * n3[2]
     if not (isinstance(y, np.ndarray) and y.shape == (nel,) and np.issubdtype(y.dtype, np.floating)):
         raise Violation("output/not-a-real-vector-of-element-size", got=repr(type(y)), shape=np.shape(y), **info)
-    require(bool(np.all(np.isfinite(y))), "output/non-finite", **info)
+    if not np.all(np.isfinite(y)):
+        # known finding (DESIGN 5.2): at the documented end xi_0 = 0 (Q = P) the safety back-shift 0.95*ns^(1/Q)*shift^(P/Q) is
+        # larger than the shift itself, so void elements next to a domain edge get a negative printed density and the next layer's
+        # P-norm becomes NaN when eps = 0; everything else that is not finite is reported under the general mechanism
+        mech = K_XI0 if (info.get("xi_0") == 0.0 and info.get("eps") == 0.0) else "output/non-finite"
+        raise Violation(mech, **info)
     X = orient(to3d(x, n3), ax, sg)
     Y = orient(to3d(y, n3), ax, sg)
     nl, m1, m2 = X.shape
@@ -407,7 +428,7 @@ def draw_params(rng, ns, which):
         return 0.5, 40.0, 1e-4
     for _ in range(200):
         if which == "corner":
-            xi0 = float(rng.choice([0.2, 0.5, 0.8]))
+            xi0 = float(rng.choice([0.2, 0.5, 0.8, 0.0]))
             p = rng.choice([5, 10, 40])
             p = int(p) if rng.random() < 0.5 else float(p)
             eps = float(rng.choice([0.0, 1e-6, 1e-2, 1e-4]))
@@ -415,7 +436,7 @@ def draw_params(rng, ns, which):
             xi0 = float(rng.uniform(0.2, 0.8))
             p = float(rng.uniform(5, 40))
             eps = float(10 ** rng.uniform(-6, -2))
-        if p + math.log(ns) / math.log(xi0) >= 1.0:
+        if xi0 == 0.0 or p + math.log(ns) / math.log(xi0) >= 1.0:
             return xi0, p, eps
     return 0.5, 40.0, 1e-4  # pragma: no cover
 
